@@ -862,16 +862,22 @@ class Server:
         line = await stream.readline()
         if not line:
             raise ConnectionResetError
-        s = line.decode(encoding=self.encoding).rstrip()
+        try:
+            s = line.decode(encoding=self.encoding).rstrip()
+        except UnicodeDecodeError:
+            # line can be a password: keep its bytes out of the traceback
+            raise ValueError("can't decode command line") from None
         cmd, _, rest = s.partition(" ")
+        # only ascii verbs exist ("\u212a".lower() is "k")
+        verb = cmd.lower() if cmd.isascii() else cmd
 
-        if cmd.lower() in censor_commands:
+        if verb in censor_commands:
             stars = "*" * len(rest)
             logger.debug("%s %s", cmd, stars)
         else:
             logger.debug("%s %s", cmd, rest)
 
-        return cmd.lower(), rest
+        return verb, rest
 
     async def response_writer(self, stream, response_queue):
         """
